@@ -173,18 +173,42 @@ def is_leaf(c):
 
 
 def looks_like_class_body(c):
-    return c.co_names[:3] == ("__name__", "__module__", "__qualname__")
+    # class bodies and the PEP 695 "<generic parameters of X>" scopes: their first line is the first decorator's
+    return c.co_names[:3] == ("__name__", "__module__", "__qualname__") or c.co_name.startswith("<generic parameters of")
+
+
+def canon_const(k):
+    if isinstance(k, tuple):
+        return ("tuple",) + tuple(canon_const(x) for x in k)
+    if isinstance(k, frozenset):
+        return ("frozenset",) + tuple(sorted(repr(x) for x in k))
+    return (type(k).__name__, repr(k))  # repr: nan, -0.0, lone surrogates compare reliably
+
+
+def per_offset_lines(c, head_upto=None):
+    out = []
+    for s, e, ln in c.co_lines():
+        if head_upto is not None and ln is not None and ln <= head_upto:
+            ln = "HEAD"
+        out.extend([ln] * ((e - s) // 2))
+    return tuple(out)
 
 
 def code_summary(c):
-    if is_leaf(c) and looks_like_class_body(c):
-        # the class statement's own first line may move from the first decorator to the `class` keyword (excluded, see bound)
-        fl = c.co_firstlineno
-        return ("class", c.co_qualname, None, c.co_code, tuple((s, e, "FIRST" if ln == fl else ln) for s, e, ln in c.co_lines()), c.co_consts, c.co_names)
-    if is_leaf(c):
-        return ("leaf", c.co_qualname, c.co_firstlineno, c.co_code, tuple(c.co_lines()), c.co_consts, c.co_names, c.co_varnames, c.co_flags)
+    consts = tuple(canon_const(k) for k in c.co_consts if not isinstance(k, types.CodeType))
     if looks_like_class_body(c):
-        return ("class", c.co_qualname)
+        # the class statement's own first line may move from the first decorator to the `class` keyword (excluded, see bound)
+        if not is_leaf(c):
+            return ("class", c.co_qualname)
+        import dis
+        head = 0
+        for ins in dis.get_instructions(c):
+            if ins.opname == "STORE_NAME" and ins.argval == "__qualname__":
+                head = (ins.positions.lineno if ins.positions and ins.positions.lineno else 0)
+                break
+        return ("class", c.co_qualname, None, c.co_code, per_offset_lines(c, head), consts, c.co_names)
+    if is_leaf(c):
+        return ("leaf", c.co_qualname, c.co_firstlineno, c.co_code, per_offset_lines(c), consts, c.co_names, c.co_varnames, c.co_flags)
     return ("inner", c.co_qualname, c.co_firstlineno, c.co_flags)
 
 
@@ -244,8 +268,16 @@ def static_check(src, filename, checker="typeguard.typechecked", transform=None)
         doc = ast.get_docstring(pristine, clean=False)
         if ("__doc__" in new_code.co_names) != ("__doc__" in plain_code.co_names) or (doc is not None and doc not in new_code.co_consts):
             P.append(("docstring", "module docstring no longer stored by the compiled code"))
-        a = [code_summary(c) for c in code_objects(plain_code)]
-        b = [code_summary(c) for c in code_objects(new_code)]
+        ca, cb = code_objects(plain_code), code_objects(new_code)
+        a = [code_summary(c) for c in ca]
+        b = [code_summary(c) for c in cb]
+        if len(a) == len(b):
+            for i, (x, y) in enumerate(zip(ca, cb)):
+                # a def in dead code (`if 0:`) leaves no nested code object but still registers the decorator's names:
+                # such a function is not a leaf in the sense intended; compare it like an inner function
+                if a[i] != b[i] and a[i][0] == "leaf" and "jaxtyping" in y.co_names and "jaxtyping" not in x.co_names:
+                    a[i] = ("inner", x.co_qualname, x.co_firstlineno, x.co_flags)
+                    b[i] = ("inner", y.co_qualname, y.co_firstlineno, y.co_flags)
         if a != b:
             det = f"{len(a)} vs {len(b)} nested code objects"
             for x, y in zip(a, b):
@@ -743,8 +775,8 @@ def gen_modules(tier, rng):
     frags = list(FRAGMENTS)
     if tier == "quick":
         for i, f in enumerate(frags):
-            for j in range(2):
-                h = QUICK_HEADERS[(2 * i + j) % len(QUICK_HEADERS)]
+            for j in range(3):
+                h = QUICK_HEADERS[(3 * i + j) % len(QUICK_HEADERS)]
                 mods.append((f"gen:{h}|{f}", HEADERS[h] + PRELUDE + FRAGMENTS[f], True))
     else:
         for h in HEADERS:
